@@ -188,6 +188,24 @@ def run():
         cs = [z3.And(*p.cond) for p in pan if p.outcome[1] == site]
         results.append(check(f'C16 receive: panic site unreachable [{site}]', dom + [z3.Or(*cs)], prop='C16'))
 
+    # ---------------------------------------------------------------- batch_to_response (every batch query goes through it)
+    REPLAY_KIND[0] = 'batchquery'
+    f = stk.get('batch_to_response')
+    if f is None:
+        results.append(dict(name='batch_to_response present in the MIR dump', result='inconclusive: not found', ok=False, inconclusive=True, prop='C16'))
+    else:
+        eng = engine()
+        b0 = Obj('pre:u64, Batch')
+        try:
+            paths = eng.relation(f, [b0])
+            pan = [p for p in paths if p.outcome[0] == 'panic']
+            info['batch_to_response'] = dict(paths=len(paths), panic=len(pan), opaque_calls=sorted(eng.opaque_calls)[:10])
+            results.append(dict(name='batch_to_response: has a returning path (non-vacuity)', result='structural', ok=any(p.outcome[0] == 'return' for p in paths), prop='C16'))
+            for site in sorted(set(p.outcome[1] for p in pan)):
+                cs = [z3.And(*p.cond) for p in pan if p.outcome[1] == site]
+                results.append(check(f'C16 queries: batch_to_response cannot panic for any stored deadline (u64) [{site}]', dom + [z3.Or(*cs)], prop='C16'))
+        except mirx.Unsupported as e:
+            results.append(dict(name='batch_to_response: MIR executor reaches the function', result='inconclusive: ' + str(e), ok=False, inconclusive=True, prop='C16'))
     # ---------------------------------------------------------------- instantiate (first pending batch)
     f = stk.get('instantiate')
     REPLAY_KIND[0] = 'instantiate'
